@@ -526,8 +526,9 @@ class Program:
         return out
 
 
-def load_program(units, variant=(), jobs=16, quiet=True):
+def load_program(units, variant=(), jobs=None, quiet=True):
     """Extract (in parallel, cached) and merge the given units."""
+    jobs = jobs or int(os.environ.get('VERIF_JOBS') or 16)
     t0 = time.time()
     th = tree_hash()
     prog = Program()
